@@ -113,12 +113,18 @@ func IsIDRSample(sample []byte) bool {
 func ContainsNaluType(sample []byte, specificNalType NaluType) bool {
 	var pos uint32 = 0
 	length := len(sample)
+	if length < 4 {
+		return false
+	}
 	for pos < uint32(length-4) {
 		naluLength := binary.BigEndian.Uint32(sample[pos : pos+4])
 		pos += 4
 		naluType := GetNaluType(sample[pos])
 		if naluType == specificNalType {
 			return true
+		}
+		if uint64(pos)+uint64(naluLength) > uint64(length) {
+			return false // bad length field, no more NALUs
 		}
 		pos += naluLength
 	}
